@@ -21,12 +21,12 @@ func SetOf(cs ...int) CSet {
 	}
 	return s
 }
-func (s CSet) Has(c int) bool        { return s&(1<<uint(c)) != 0 }
-func (s CSet) With(c int) CSet       { return s | 1<<uint(c) }
-func (s CSet) Minus(o CSet) CSet     { return s &^ o }
-func (s CSet) Contains(o CSet) bool  { return s&o == o }
+func (s CSet) Has(c int) bool         { return s&(1<<uint(c)) != 0 }
+func (s CSet) With(c int) CSet        { return s | 1<<uint(c) }
+func (s CSet) Minus(o CSet) CSet      { return s &^ o }
+func (s CSet) Contains(o CSet) bool   { return s&o == o }
 func (s CSet) Intersects(o CSet) bool { return s&o != 0 }
-func (s CSet) Len() int              { return bits.OnesCount32(uint32(s)) }
+func (s CSet) Len() int               { return bits.OnesCount32(uint32(s)) }
 func (s CSet) List() []int {
 	var r []int
 	for c := 0; c < u.N; c++ {
@@ -68,8 +68,8 @@ type MEnt struct {
 
 // FSpec describes a filter.
 type FSpec struct {
-	Kind      int // FUnsafe, FZero (Filter0+With), FTyped (tuple + With)
-	Tuple     int // typed tuple index for FTyped
+	Kind      int   // FUnsafe, FZero (Filter0+With), FTyped (tuple + With)
+	Tuple     int   // typed tuple index for FTyped
 	With      []int // extra With comps (for FUnsafe: all required ids)
 	Without   []int
 	Exclusive bool
@@ -130,12 +130,12 @@ func (o *ObsSpec) AllComps() CSet {
 
 // MEvent is one expected event of an operation.
 type MEvent struct {
-	Ev      EvType
-	E       EID
-	Changed CSet // components the event is about (added / removed / set / changed relations / event comps)
+	Ev         EvType
+	E          EID
+	Changed    CSet // components the event is about (added / removed / set / changed relations / event comps)
 	ChangedMax CSet // upper bound where documentation is silent (SetRelations to the same target); == Changed otherwise
-	Ctx     CSet // entity composition that With/Without/Exclusive are matched against
-	Exists  bool // false: event only "may" exist (not used for MUST)
+	Ctx        CSet // entity composition that With/Without/Exclusive are matched against
+	Exists     bool // false: event only "may" exist (not used for MUST)
 }
 
 // Kind is an operation kind.
@@ -147,8 +147,8 @@ const (
 	KAdd
 	KRemove
 	KExchange
-	KSet       // Map.Set / MapN.Set (emits OnSetComponents)
-	KWrite     // write through a pointer obtained by Get
+	KSet   // Map.Set / MapN.Set (emits OnSetComponents)
+	KWrite // write through a pointer obtained by Get
 	KSetRel
 	KCopy
 	KRemoveEntity
@@ -201,24 +201,24 @@ const (
 
 // Op is one operation, as data.
 type Op struct {
-	K     Kind
-	Path  int
-	Fn    int
-	E     EID
-	Add   []int   // components to add / create with / set / write, in call order
-	Vals  []int64 // values, parallel to Add
-	Rem   []int
-	Rels  []RelT
-	N     int   // count for batch creation; duration selector for Shrink; step count for StepQuery
-	Tuple int   // typed tuple for PTMap / PTExch
-	F     *FSpec // batch / query filter (ad hoc)
-	SF    int    // standing filter slot, or -1
-	Cached bool  // use the registered instance of the standing filter
-	QRels []RelT // per-call relation targets
-	Obs   *ObsSpec
-	Slot  int // observer slot / query slot / resource comp / misuse id
-	Ev    EvType
-	Sub   int // sub-selector (misuse kind, write path, shrink variant ...)
+	K       Kind
+	Path    int
+	Fn      int
+	E       EID
+	Add     []int   // components to add / create with / set / write, in call order
+	Vals    []int64 // values, parallel to Add
+	Rem     []int
+	Rels    []RelT
+	N       int    // count for batch creation; duration selector for Shrink; step count for StepQuery
+	Tuple   int    // typed tuple for PTMap / PTExch
+	F       *FSpec // batch / query filter (ad hoc)
+	SF      int    // standing filter slot, or -1
+	Cached  bool   // use the registered instance of the standing filter
+	QRels   []RelT // per-call relation targets
+	Obs     *ObsSpec
+	Slot    int // observer slot / query slot / resource comp / misuse id
+	Ev      EvType
+	Sub     int  // sub-selector (misuse kind, write path, shrink variant ...)
 	BatchCb bool // pass a callback to batch ops that take func(Entity)
 }
 
